@@ -108,6 +108,13 @@ pub const CARRIERS: &[(&str, &str, &str)] = &[
     ("gen.map-last", "int", "range(4).to_generator().map(v_cb).last()"),
     ("gen.map-min", "int", "range(4).to_generator().map(v_cb).min()"),
     ("gen.map-skip-get", "int", "range(5).to_generator().map(v_cb).skip(2).get(1)"),
+    // (every element does the same work, so that which elements the random source picks does not show)
+    ("seq.map-sample-pick", "int", "range(1000).map((v_x: int)->{ v_cb(1) }).sample(2).len()"),
+    ("seq.map-sample-pool", "int", "range(8).map((v_x: int)->{ v_cb(1) }).sample(3).len()"),
+    ("seq.map-shuffle", "int", "range(5).map((v_x: int)->{ v_cb(1) }).shuffle().len()"),
+    ("seq.map-random_choices", "int", "range(5).map((v_x: int)->{ v_cb(1) }).random_choices(3).map((v_x: int)->{ v_x }).to_array().len()"),
+    ("gen.product-restart", "int", "product(range(3).to_generator(), [1].to_generator().map(v_cb)).to_array().len()"),
+    ("map.update_from_keys-occupied", "int", "mapping<int>().set(1, 1).update_from_keys([1, 1, 2], (v_k: int)->{v_w(1)}, (v_k: int, v_v: int)->{v_w(1) + v_v}).len()"),
     ("gen.chunks-map", "int", "range(5).to_generator().map(v_cb).chunks(2).len()"),
     ("gen.enumerate-map", "int", "range(4).to_generator().map(v_cb).enumerate().to_array().len()"),
     ("gen.take-skip-map", "int", "count().to_generator().map(v_cb).skip(1).take(3).to_array().len()"),
